@@ -106,6 +106,13 @@ def run(tier, seed):
                 if T is not None and type(w) is not T:
                     ck.violation('C12:stored-value-has-another-type', '%s line stored %r (%s)' % (tname, w, type(w).__name__),
                                  {'kind': 'failing-input', 'type': tname, 'returned': repr(v), 'stored': repr(w)}, found=True)
+                if 'TFloat' in tname and type(v) is float and type(w) is float and v == v and abs(v) != float('inf'):
+                    places = int(re.search(r'\d+', tname).group(0))
+                    if w != round(v, places) and not (w == 0 and round(v, places) == 0):
+                        ck.violation('C12:money-not-rounded-to-declared-places:%d' % places,
+                                     'a money line declared with %d decimal places stored %r for the returned value %r (rounding to %d places gives %r)' % (
+                                         places, w, v, places, round(v, places)),
+                                     {'kind': 'failing-input', 'type': tname, 'returned': repr(v), 'stored': repr(w), 'places': places}, found=True)
             pvv = coq_pv(v, enums)
             if pvv is None:
                 if out[0] == 'val' and not (v is None) and type(v) not in (str,):
